@@ -188,7 +188,7 @@ func verifC06History() {
 					r = append([]byte{}, vHRRRandom...)
 					d := vByte()
 					vAssume(d != 0)
-					r[[]int{0, 31, 13, 7, 24}[vInt(0, 1+vTier())]] ^= d // first, last, inner positions
+					r[[]int{0, 31, 13, 7, 24}[vInt(0, 1)]] ^= d // first, last, inner positions
 				} else {
 					vAssume(r[0] != 0xCF)
 				}
@@ -220,7 +220,7 @@ func verifC06History() {
 			before := len(tr.out)
 			var n int
 			var err error
-			if sp := []int{0, 5, 1, 6}[vInt(0, 1+vTier())]; sp > 0 && sp < len(rec) {
+			if sp := []int{0, 5, 1, 6}[vInt(0, 1)]; sp > 0 && sp < len(rec) {
 				// the backend's record arrives split over two Write calls
 				n1, err1 := c.Write(rec[:sp])
 				vAssert(err1 == nil && n1 == sp, "first part of a split backend record accepted")
@@ -248,7 +248,7 @@ func verifC06History() {
 			variant := 0 // a further hello (third of the connection) is an honest one: it must still not be processed
 			if hellos == 1 {
 				// quick tier: one variant per outcome class (the abort discipline of all 14 ill-formed variants is verifC04RetryRules' job)
-				variant = []int{0, 1, 5, 9, 10, 12, 2, 3, 4, 6, 7, 8, 11, 13, 14, 15, 16, 17, 18}[vInt(0, 5+13*vTier())]
+				variant = []int{0, 1, 5, 9, 10, 12, 2, 3, 4, 6, 7, 8, 11, 13, 14, 15, 16, 17, 18}[vInt(0, 5+7*vTier())]
 			}
 			rec, wantMsg, class, desc = vSecondHello(st, variant)
 			if sharedSeals > 0 {
